@@ -471,7 +471,7 @@ def check_classification(ck, n):
 
 
 # ------------------------------------------------------------------ E. real processes
-def real_scenario(ck, idx, kind, depth, fanout, limit, ignore, which, results):
+def real_scenario(ck, idx, kind, depth, fanout, limit, ignore, which, results, forker=False):
     """kind: 'timeout' | 'INT' | 'TERM'. One real `rebench` child; liveness from /proc."""
     with K._threads_lock:
         ck._c16_real = getattr(ck, '_c16_real', 0) + 1
@@ -484,12 +484,13 @@ def real_scenario(ck, idx, kind, depth, fanout, limit, ignore, which, results):
         # the signal arrives while BH runs; `which` = 2 puts a normal invocation before it
         benchmarks = [('BH', 'hang2' if which == 2 else 'hang', depth, fanout)]
         lim = -1 if limit is None else limit
-    conf = K.write_real_scenario(wd, benchmarks, lim, ignore, invocations=2 if which == 2 else 1)
-    expected_nodes = K.node_count(depth, fanout)
+    conf = K.write_real_scenario(wd, benchmarks, lim, ignore, invocations=2 if which == 2 else 1, forker=forker)
+    # with `forker` the harness also starts a multi-threaded python process whose helper is forked by a non-main thread
+    expected_nodes = K.node_count(depth, fanout) + (2 if forker else 0)
     sess = K.RealSession(wd, conf)
     log = os.path.join(wd, 'BH.log')
     res = {'kind': kind, 'depth': depth, 'fanout': fanout, 'limit': lim, 'ignore_timeouts': ignore, 'idx': idx,
-           'signal_at_invocation': which}
+           'signal_at_invocation': which, 'forker': forker}
     try:
         def ready():
             pids, marks = K.read_log(log)
@@ -544,7 +545,7 @@ def check_real(ck, plans):
     def worker(i, plan):
         with sem:
             try:
-                real_scenario(ck, i, *plan, results=results)
+                real_scenario(ck, i, *plan[:6], results=results, forker=bool(plan[6]) if len(plan) > 6 else False)
             except Exception as e:  # noqa
                 results.append({'idx': i, 'infra': repr(e)})
     for i, plan in enumerate(plans):
@@ -557,7 +558,9 @@ def check_real(ck, plans):
         if 'infra' in res:
             raise lib.InfraError('real-process scenario failed to run: %s' % res['infra'])
         kind = res['kind']
-        inp = dict((k, res[k]) for k in ('kind', 'depth', 'fanout', 'limit', 'ignore_timeouts', 'signal_at_invocation'))
+        inp = dict((k, res[k]) for k in ('kind', 'depth', 'fanout', 'limit', 'ignore_timeouts', 'signal_at_invocation', 'forker'))
+        if res['forker']:
+            ck.count('real: tree with a helper forked by a non-main thread')
         ck.count('real:%s depth=%d' % (kind, res['depth']))
         if kind != 'timeout':
             ck.count('real: signal during invocation %d' % res['signal_at_invocation'])
@@ -598,8 +601,96 @@ def real_plans(rng, n, kinds=('timeout', 'INT', 'TERM')):
         d, f = shapes[i % len(shapes)] if i < len(shapes) * 3 else rng.choice(shapes)
         kind = kinds[i % len(kinds)]
         plans.append((kind, d, f, rng.choice([1, 2]) if kind == 'timeout' else rng.choice([None, None, 60]),
-                      rng.random() < 0.5, 1 if kind == 'timeout' else rng.choice([1, 1, 2])))
+                      rng.random() < 0.5, 1 if kind == 'timeout' else rng.choice([1, 1, 2]), i % 2 == 0))
     return plans
+
+
+# ------------------------------------------------------------------ F. the parallel scheduler
+def check_parallel(ck, n):
+    """whole sessions with the parallel scheduler (several non-exclusive runs, cpu_count 8): a real SIGINT reaches
+    the main thread while exactly one worker is still busy with a scripted child that never ends (or while several
+    are). Every running child must have been killed when ReBench returns, and it returns as aborted."""
+    import signal as _signal
+    rng = ck.rng
+    for idx in range(n):
+        ck._c16_par = getattr(ck, '_c16_par', 0) + 1
+        wd = os.path.join(ck.scratch, 'par%d' % ck._c16_par)
+        os.makedirs(wd)
+        n_runs = rng.randint(2, 5)
+        n_hang = 1 if idx % 3 != 2 else rng.randint(2, min(3, n_runs))     # mostly: exactly one worker still busy
+        names = ['P%d' % i for i in range(n_runs)]
+        hanging = set(rng.sample(names, n_hang))
+        cfg = {'default_experiment': 'T', 'default_data_file': 't.data',
+               'runs': {'invocations': 1, 'execute_exclusively': False, 'max_invocation_time': rng.choice([-1, 300])},
+               'benchmark_suites': {'S': {'gauge_adapter': 'RebenchLog', 'command': 'h %(benchmark)s', 'benchmarks': names}},
+               'executors': {'E': {'path': '/opt/verif-c16', 'executable': 'exe'}},
+               'experiments': {'T': {'suites': ['S'], 'executions': ['E']}}}
+        conf = drive.write_config(wd, cfg)
+        state = {'hang_pids': [], 'quick_started': 0, 'lock': threading.Lock(), 'sent': False}
+
+        def script(rec, state=state):
+            b = rec['args'].split()[-1]
+            with state['lock']:
+                if b in hanging:
+                    state['hang_pids'].append(rec['pid'])
+                    return drive.Outcome(hang=True, out='%s: iterations=1 runtime: 10ms\n' % b)
+                state['quick_started'] += 1
+            return drive.Outcome(0, '%s: iterations=1 runtime: 20ms\n' % b)
+
+        def watcher(state=state):
+            # wait until the hanging children run and every other run is done and its worker gone, then interrupt
+            deadline = time.time() + 15
+            while time.time() < deadline:
+                busy = [t for t in threading.enumerate() if t.name.startswith('BenchmarkThread') and t.is_alive()]
+                subs = [t for t in threading.enumerate() if t.name.startswith('Subprocess') and t.is_alive()]
+                if len(state['hang_pids']) == n_hang and state['quick_started'] == n_runs - n_hang \
+                        and len(subs) == n_hang and 1 <= len(busy) <= n_hang:
+                    break
+                time.sleep(0.01)
+            time.sleep(0.1)
+            state['busy_workers'] = len([t for t in threading.enumerate()
+                                         if t.name.startswith('BenchmarkThread') and t.is_alive()])
+            state['sent'] = True
+            _signal.pthread_kill(threading.main_thread().ident, _signal.SIGINT)
+        wt = threading.Thread(target=watcher)
+        wt.start()
+        t0 = time.time()
+        try:
+            r = drive.run_session(wd, [conf], script, cpu_count=8)
+        except KeyboardInterrupt:
+            # the interrupt arrived outside ReBench (it should not: the watcher waits for the workers)
+            wt.join()
+            raise lib.InfraError('the SIGINT of the parallel scenario reached the harness itself')
+        wall = time.time() - t0
+        wt.join()
+        # the interpreter would now wait for the workers: what is still there?
+        left = []
+        for t in threading.enumerate():
+            if t.name.startswith('BenchmarkThread') or t.name.startswith('Subprocess'):
+                t.join(3)
+                if t.is_alive():
+                    left.append(t.name)
+        inp = {'parallel': {'runs': n_runs, 'hanging': sorted(hanging), 'max_invocation_time': cfg['runs']['max_invocation_time']}}
+        ck.impl_traces += 1
+        ck.count('parallel scheduler: SIGINT while %s busy' % ('one worker is' if n_hang == 1 else 'several workers are'))
+        ck.case(nontrivial_key=('par', idx, n_runs, n_hang),
+                sample={'runs': n_runs, 'hanging': n_hang, 'kills': len(r.kills), 'status': r.status()})
+        if not state['sent']:
+            raise lib.InfraError('parallel scenario: the watcher never sent the signal')
+        not_killed = [p for p in state['hang_pids'] if p not in r.kills]
+        detail = {'status': r.status(), 'crash': r.crash, 'running_children': state['hang_pids'], 'killed': r.kills,
+                  'workers_busy_at_signal': state.get('busy_workers'), 'threads_left_afterwards': left, 'wall': round(wall, 2)}
+        if not_killed:
+            ck.oracle_fail('running_child_killed', inp, detail,
+                           signature={'clause': 'running_child_killed', 'mode': 'parallel-scheduler',
+                                      'busy_workers': 'one' if n_hang == 1 else 'several'})
+        elif r.status() != 'aborted' or left:
+            ck.oracle_fail('interrupt_reraised', inp, detail,
+                           signature={'clause': 'interrupt_reraised', 'mode': 'parallel-scheduler'})
+        # model: each running child is a situation (interrupt, child running): kill, join, re-raise
+        if not not_killed and sorted(r.kills) != sorted(state['hang_pids']):
+            ck.disagree('c16.parallel: exactly the running children are killed', inp, detail,
+                        {'killed': sorted(state['hang_pids'])}, TH_RUN)
 
 
 # ------------------------------------------------------------------ entry points
@@ -628,9 +719,11 @@ def run(ck):
     check_decisions(ck)
     check_real_thread(ck, 18 if quick else 120)
     check_classification(ck, 16 if quick else 64)
+    check_parallel(ck, 6 if quick else 40)
     rng = ck.rng
     if quick:
-        plans = [('timeout', 2, 2, 1, True, 1), ('INT', 2, 2, None, False, 2), ('TERM', 1, 2, None, False, 1)]
+        plans = [('timeout', 2, 2, 1, True, 1, True), ('INT', 2, 2, None, False, 2, False),
+                 ('TERM', 1, 2, None, False, 1, True)]
     else:
         plans = real_plans(rng, 63)
     check_real(ck, plans)
@@ -662,9 +755,11 @@ def replay(ck, data):
                            signature={'clause': 'tree_all_killed', 'mode': 'scripted-pgrep'})
     elif 'kind' in inp:
         check_real(ck, [(inp['kind'], inp['depth'], inp['fanout'], inp['limit'], inp['ignore_timeouts'],
-                         inp.get('signal_at_invocation', 1))])
+                         inp.get('signal_at_invocation', 1), inp.get('forker', False))])
     elif inp.get('mode') in ('timeout', 'interrupt', 'finish', 'no-limit-finish', 'interrupt-with-limit', 'interrupt-at-start'):
         check_real_thread(ck, 12)
+    elif 'parallel' in inp:
+        check_parallel(ck, 6)
     elif 'situation' in inp:
         check_decisions(ck)
     else:
